@@ -6,6 +6,7 @@ import (
 	"time"
 	"unsafe"
 
+	"github.com/zishang520/engine.io/v2/engine"
 	"github.com/zishang520/engine.io/v2/types"
 	"verifrt/vsched"
 )
@@ -83,6 +84,29 @@ func hsRaceBody(h hsRace, prop string) vsched.Body {
 		}
 		x.Run(x.Now() + time.Second)
 		x.Frozen = true
+		if prop == "C12" {
+			// shutdown right after the raced handshake: every session closed once, table empty at once
+			vsched.GoNamed("act:shutdown", func() { w.BeginAction(); w.Srv.Close() })
+			x.Run(x.Now() + time.Second)
+			n := 0
+			w.Srv.Clients().Range(func(string, engine.Socket) bool { n++; return true })
+			if c := w.Srv.ClientsCount(); c != 0 || n != 0 {
+				x.Fail("table-not-empty%s: after Server.Close the client table holds %d sessions, ClientsCount=%d", fp, n, c)
+			}
+			for _, s := range w.Socks {
+				if k := s.Count("close"); k == 0 && s.Sock.ReadyState() == "closed" {
+					// (the residual window of the C03 finding: closed before the application's listener existed)
+					x.Fail("close-event-missed[handshake]: the session is closed but the application saw no close event (%s)", h.id())
+				} else if k != 1 {
+					x.Fail("close-count%s: %d close events %v after Server.Close (state %s)", fp, k, s.CloseReasons(), s.Sock.ReadyState())
+				}
+			}
+			for _, t := range x.Panics() {
+				x.Fail("panic%s: thread %s: %v", fp, t.Name, t.Panic)
+			}
+			x.Outcome = fmt.Sprintf("sessions=%d", len(w.Socks))
+			return
+		}
 		x.Run(x.Now() + 100*time.Second) // past every heartbeat deadline
 		for _, t := range x.Panics() {
 			x.Fail("panic%s: thread %s: %v\n%s", fp, t.Name, t.Panic, trimStack(t.Stack))
@@ -136,7 +160,7 @@ func hsRaceBody(h hsRace, prop string) vsched.Body {
 }
 
 func init() {
-	for _, prop := range []string{"C03", "C04"} {
+	for _, prop := range []string{"C03", "C04", "C12"} {
 		prop := prop
 		for _, h := range []hsRace{
 			{"websocket", "peer-drop"}, {"websocket", "peer-garbage"}, {"websocket", "peer-close-frame"}, {"websocket", "app-close-true"}, {"websocket", "app-close-false"}, {"websocket", "server-close"}, {"websocket", "none"},
@@ -144,6 +168,9 @@ func init() {
 			{"polling", "abort-request"}, {"polling", "app-close-true"}, {"polling", "app-close-false"}, {"polling", "server-close"}, {"polling", "none"},
 		} {
 			h := h
+			if prop == "C12" && (strings.HasPrefix(h.cause, "app-") || h.cause == "server-close") {
+				continue
+			}
 			register(prop, "handshake-race/"+h.id(), false, func(c *Ctx) {
 				c.ExploreDev(h.id(), Pick(c, 1, 2), Pick(c, 3, 5), hsRaceBody(h, prop))
 				c.Sample(h.id())
